@@ -549,11 +549,11 @@ RULE = (
 def build(tier):
     return CheckSpec(
         [
-            Sub("uri", run_uri, strategy=_uri_case, budget={"quick": 8000, "thorough": 200000}, max_wall={"quick": 50, "thorough": 1500}),
-            Sub("optset", run_optset, strategy=_optset_case, budget={"quick": 6000, "thorough": 150000}, max_wall={"quick": 50, "thorough": 1500}),
-            Sub("reject", run_reject, strategy=_reject_case, budget={"quick": 4000, "thorough": 60000}, max_wall={"quick": 50, "thorough": 900}),
-            Sub("arbitrary", run_arbitrary, strategy=_arbitrary_case, budget={"quick": 8000, "thorough": 200000}, max_wall={"quick": 50, "thorough": 1500}),
-            Sub("hostport", run_hostport, strategy=_hostport_case, budget={"quick": 3000, "thorough": 50000}, max_wall={"quick": 40, "thorough": 600}),
+            Sub("uri", run_uri, strategy=_uri_case, budget={"quick": 8000, "thorough": 600000}, max_wall={"quick": 50, "thorough": 3600}),
+            Sub("optset", run_optset, strategy=_optset_case, budget={"quick": 6000, "thorough": 450000}, max_wall={"quick": 50, "thorough": 3600}),
+            Sub("reject", run_reject, strategy=_reject_case, budget={"quick": 4000, "thorough": 180000}, max_wall={"quick": 50, "thorough": 3600}),
+            Sub("arbitrary", run_arbitrary, strategy=_arbitrary_case, budget={"quick": 8000, "thorough": 600000}, max_wall={"quick": 50, "thorough": 3600}),
+            Sub("hostport", run_hostport, strategy=_hostport_case, budget={"quick": 3000, "thorough": 150000}, max_wall={"quick": 40, "thorough": 3600}),
         ],
         RULE,
         assumptions=[
